@@ -1,5 +1,5 @@
 //! C13: qgraph JSON round trips.  One execution = one diagram (family member or seeded random
-//! diagram, decorated with phases of denominators {1,2,3,4,8,16,256}, coordinates that are random
+//! diagram, decorated with phases of denominators {1,2,3,4,8,16,256} or any d <= 256, coordinates that are random
 //! multiples of 0.1, a scalar of one of the classes one / sqrt2^p e^{i k pi/4} / generic
 //! Z[omega][1/2] value / zero, occasionally an H-box) pushed through
 //!   encode_decode  quizx::json::encode_graph -> decode_graph          (vec and hash backend)
@@ -157,7 +157,8 @@ fn decorate(a: &Value, r: &mut StdRng, d: &Deco) -> Value {
             v["q"] = json!(r.random_range(-50..=120) as f64 / 10.0);
         }
         if !is_b && d.other_phases && r.random_bool(0.6) {
-            let den = DENS[r.random_range(0..DENS.len())];
+            // the listed denominators, or any denominator up to 256
+            let den = if r.random_bool(0.6) { DENS[r.random_range(0..DENS.len())] } else { r.random_range(1..=256) };
             let num = r.random_range(-(2 * den)..=(2 * den));
             v["ph"] = json!([num, den]);
         }
